@@ -15,6 +15,9 @@ CLAIMED = {
  "C14": dict(cat="exploration", ref="4.7", technique="deterministic simulation used as history generator: user, real UndoHistory (delayed event FIFO, simulated clock) and real AutomationMgr all deliver parameter messages to one real macro-generated port tree; refinement check against a model after every dispatch",
    text="Every macro-generated port kind (char/int/float parameters with negative, fractional and absent bounds, options with and without bounds and enum storage, toggles, strings, all array forms, enumerated/pointer/plain sub-trees) receives seeded histories of sets and queries from the user, undo/redo messages from the real undo history and automation output; after each single dispatch every field of the object, every reply/broadcast and every undo event is compared with a model written from the property text. No schedule dependence of its own: the simulator contributes multi-party histories, minimisation and replay. Sampling, not proof.",
    note="Trusted: the hand-written leaf table (declared ranges repeated by hand) and model in apps/appnode.h. Unknown option symbols, NaN and -0.0 are not generated; char-backed kinds are driven with -128..127 only (as the property states). Absence of a broadcast when nothing changed is not required."),
+ "C02": dict(cat="fault_enumeration", ref="4.9", technique="fault injection by exhaustive enumeration of the capacity fault (c = 0..needed+8) per generated message/bundle on guarded destinations under ASan; pipeline stages ThreadLink(MaxMsg=c) and RtData::reply at the 8192-byte boundary",
+   text="For every generated message (15 value tags, brackets, payload lengths in every residue mod 4, NULL blobs; varargs, array and arg-value constructors) and bundle (0..8 elements, nested to depth 4) the destination capacity is enumerated exhaustively from 0 to needed+8 on a guarded exact-size buffer: no byte outside is written, short capacities return 0 with the buffer zero-filled, sufficient ones return the exact size and the same bytes as a generous buffer, NULL-buffer queries return that size. This property has a fault and no schedule; it is claimed as fault enumeration and nothing more.",
+   note="Trusted: guard bytes + AddressSanitizer red zones; the generator of objects is sampled (seeded), the capacities per object are exhaustive. Whether the encoding itself is right is C01 (not claimed). Varargs constructor through 24 fixed signatures."),
 }
 PENDING = {}
 NA = {
